@@ -40,10 +40,12 @@ def run(ctx):
             evs.append(dc.ev_doc("w%dr%d" % (i, rep), wdoc, schema, route=rnd.choice(["xml", "sgml"]), label="generated-wire", expect=""))
             # character data with white space at its edges: kept by from_etree and inside a CDATA section
             if rnd.random() < 0.5:
-                pdoc = dc.pad_strings(doc, schema, types, rnd)
+                # (the CDATA route starts from the wire-safe document; a text holding "]]>" cannot go into a CDATA section and
+                # is left unpadded there)
+                proute = rnd.choice(["cdata", "cdata", "etree"])
+                pdoc = dc.pad_strings(wdoc, schema, types, rnd, avoid="]]>") if proute == "cdata" else dc.pad_strings(doc, schema, types, rnd)
                 if pdoc is not None:
-                    evs.append(dc.ev_doc("p%dr%d" % (i, rep), pdoc, schema, route=rnd.choice(["cdata", "cdata", "etree"]),
-                                         label="generated-padded", expect=""))
+                    evs.append(dc.ev_doc("p%dr%d" % (i, rep), pdoc, schema, route=proute, label="generated-padded", expect=""))
             roots.add(g[0]["tag"])
             if sum(1 for t in doc if t["e"] == "leaf") >= 2:
                 ctx.nontrivial.add(dc.doc_text(doc))
